@@ -1,9 +1,11 @@
 """C07 - close() then join() drains all work and leaves no processes behind."""
+from engines import realparts as rp
 from engines import simgen as g
 from engines.simprop import make_execute
 
 LEVEL = 'exploration'
-RULE = ('sim: E1 histories of apply/map/starmap/imap submissions and worker '
+RULE = ('real: pool size 1-4, threads on/off, 0-10 apply/map/imap jobs of 0-0.3 s, close() at a generated offset, join(), then late submissions. ' 
+        'sim: E1 histories of apply/map/starmap/imap submissions and worker '
         'progress with close() at a generated position, then quiesce and join(): '
         'every job handed out before close() must be resolved with its sequential '
         'value, join() must not block on a live worker, no worker may wait out the '
@@ -15,7 +17,8 @@ ASSUMPTIONS = [
     '(a closed pool does not replace workers - known finding D10)',
     'real processes/threads being gone after join() is checked by part real',
 ]
-SHARDS = {'quick': 4, 'thorough': 16}
+SHARDS = {'quick': 8, 'thorough': 16}
+WALL_LIMIT = {'quick': 1500, 'thorough': 6 * 3600}
 
 
 def sim_cases():
@@ -35,9 +38,11 @@ def _nontrivial(labels, sim):
 
 
 execute_sim = make_execute({'c01', 'c02', 'c07'}, _nontrivial, prop='C07')
-PARTS = {'sim': execute_sim}
-EXPLORE = {'sim': (sim_cases(), execute_sim)}
+PARTS = {'sim': execute_sim, 'real': rp.execute_c07}
+EXPLORE = {'sim': (sim_cases(), execute_sim), 'real': (rp.c07_cases(), rp.execute_c07)}
 
 
 def run(ctx):
-    ctx.explore('sim', sim_cases(), execute_sim, n=ctx.pick(500, 25000))
+    ctx.explore('sim', sim_cases(), execute_sim, n=ctx.pick(250, 25000))
+    ctx.explore('real', rp.c07_cases(), rp.execute_c07, n=ctx.pick(4, 60),
+                shrink_budget=6)
